@@ -1,6 +1,7 @@
 import MgpuProofs.C12_E2EF
 import MgpuProofs.Props.C12_E2E
 import MgpuProofs.Props.C12_Full
+import MgpuProofs.Props.C12_FullCons
 /-!
 # C12 (end to end, ALL stages) — `owed` of `C12.W.Full` is `willSignal ∨ r = tick` of `C12.K`
 
@@ -66,6 +67,21 @@ theorem driver_never_asleep_with_work {kind : Nat → W.Full.Cmd} (hk : ∀ n, (
   · exact Or.inl ha
   · exact Or.inr (owed_implies_signal_pending h ho)
 
+/-- **A scheduled tick event is handled, all stages** (see `G.scheduled_tick_is_handled`). -/
+theorem scheduled_tick_is_handled {kind : Nat → W.Full.Cmd} {caps : W.Full.Caps} {s : St}
+    (h : Reach kind caps s) (hev : s.k.evt = true) : K.willLook s.k :=
+  (pinv_reach h).look hev
+
+/-- **Work is served, all stages**: any of the seven kinds of work ⇒ the tick event is scheduled AND
+    the engine goroutine will handle it, or a thread still owes its signal, or `runAsync` is about to
+    call `TickLater`. `W.Full`'s invariant, `K`'s protocol invariant and the link, on one state. -/
+theorem work_is_served {kind : Nat → W.Full.Cmd} (hk : ∀ n, (kind n).handled = true)
+    {caps : W.Full.Caps} {s : St} (h : Reach kind caps s) (hw : W.Full.work caps s.core) :
+    (s.k.evt = true ∧ K.willLook s.k) ∨ (∃ a ∈ s.k.apps, K.willSignal a) ∨ s.k.r = .tick := by
+  rcases driver_never_asleep_with_work hk h hw with h1 | h1
+  · exact Or.inl ⟨h1, scheduled_tick_is_handled h h1⟩
+  · exact Or.inr h1
+
 /-- **`DrainCommandQueue` tests the component's real queue** (a tick of all seven stages only ever
     shrinks a queue; `Enqueue` appends to both). -/
 theorem queues_mirrored {kind : Nat → W.Full.Cmd} {caps : W.Full.Caps} {s : St}
@@ -93,6 +109,38 @@ theorem drain_returns_only_when_empty {kind : Nat → W.Full.Cmd} {caps : W.Full
     rw [hk1] at ha'
     exact sync_empty s (sync_reach h) a.q (G.stepApp_returned s.k k1 j a a' ha hk' ha' hret) w hw
 
+/-- **Every reachable state of the composed model is a state of a legitimate `W.Full` run from
+    `Full.init`** — so every theorem of `Props/C12_Full*.lean` about such runs (`requests_conserved`,
+    `answers_are_solicited`, `running_queue_waits_for_something`, `delivery_wakes`, …) holds of `sysOf s`. -/
+theorem reach_is_Full_run {kind : Nat → W.Full.Cmd} (hk : ∀ n, (kind n).handled = true) {caps : W.Full.Caps} {s : St}
+    (h : Reach kind caps s) :
+    ∃ cfg evs, (∀ ev ∈ evs, ev.legit = true) ∧ sysOf s = W.Full.run caps (W.Full.init cfg) evs :=
+  reach_run hk h
+
+/-- **A quiescent system has released every drain.** In a reachable state of the composed model in
+    which no tick event is scheduled, NO THREAD OWES A SIGNAL (protocol state: nobody `willSignal`,
+    `runAsync` is not about to call `TickLater` — not a flag of the wake model), and the GPU side has
+    answered everything: every command queue of the component is empty and idle, and every id queue is
+    empty — the emptiness test of every `DrainCommandQueue` succeeds. (`Full.quiescent_means_drained`
+    with its hypothesis `owed = false` discharged by the link.) -/
+theorem quiescent_means_drained {kind : Nat → W.Full.Cmd} (hk : ∀ n, (kind n).handled = true)
+    {caps : W.Full.Caps} (hcap : 0 < caps.gOut) {s : St} (h : Reach kind caps s)
+    (hsl : s.k.evt = false) (hnw : ¬ ∃ a ∈ s.k.apps, K.willSignal a) (hr : s.k.r ≠ .tick)
+    (hext : s.ext = []) (hout : s.core.outb = []) :
+    (∀ q ∈ s.core.d.qs, q.cmds = [] ∧ q.running = false) ∧ ∀ j, K.cmdsOf s.k j = [] := by
+  have hno : s.owed = false := by
+    cases ho : s.owed with
+    | false => rfl
+    | true =>
+      rcases owed_implies_signal_pending h ho with h1 | h1
+      · exact absurd h1 hnw
+      · exact absurd h1 hr
+  obtain ⟨cfg, evs, hl, he⟩ := reach_is_Full_run hk h
+  have hq := W.Full.quiescent_means_drained caps cfg evs hl hcap
+  simp only [← he] at hq
+  have hd := hq hsl hno hext hout
+  exact ⟨hd, sync_all_empty s (sync_reach h) (fun q hq => (hd q hq).1)⟩
+
 /-! non-vacuity: one GPU, one queue, one thread: `EnqueueMemCopyH2D` (one page piece, delay 1); `DrainCommandQueue` -/
 def cfg1 : W.Full.Cfg := { nGpus := 1, ctxs := [0], cycH2D := 1 }
 def copy1 : Nat → W.Full.Cmd := fun _ => .copy false 1
@@ -116,6 +164,8 @@ example : (runSched copy1 {} demoF (schedF ++ [.app 0, .app 0, .env .retrieveG, 
     some (false, true, [(1, true, 1)]) ∧
     (runSched copy1 {} demoF (schedF ++ [.app 0, .app 0, .env .retrieveG, .env (.answer 0)])).map obsB =
     some (0, 0, 1, [1], [0]) := ⟨by decide, by decide⟩
+example : (runSched copy1 {} demoF (schedF ++ [.app 0, .app 0, .env .retrieveG, .env (.answer 0)])).map
+    (fun s => (s.k.evt, s.k.e, s.k.running)) = some (true, .loop, true) := by decide
 -- the tick takes the answer (middleware), completes the command in both queues, the drain returns
 example : (runSched copy1 {} demoF (schedF ++ [.app 0, .app 0, .env .retrieveG, .env (.answer 0), .eng, .eng, .app 0])).map
     obsA = some (false, false, [(0, false, 0)]) ∧
